@@ -309,6 +309,57 @@ def skip_flatten_test(ctx, rng):
                 break
 
 
+def interp_flatten_section(ctx):
+    """flattenComponents through compileInterpolatableTTFs on a plain LIST of fonts (no designspace) whose sources differ in
+    what they hold: a partial source (one base glyph only) listed first / last / absent, next to a full one with a chain
+    G -> D -> B.  In every compiled font no reference is nested deeper than one level, maxp says so, and every glyph renders
+    what the same source renders when compiled alone without flattening"""
+    import ufo2ft
+    from harness.props.c13 import flat_contours, same_rendering
+    from fontTools.ttLib import TTFont
+    sq = lambda x, y, d: [[(Fr(x), Fr(y), "line"), (Fr(x + d), Fr(y), "line"), (Fr(x + d), Fr(y + d), "line"), (Fr(x), Fr(y + d), "line")]]
+    one = (Fr(1), Fr(0), Fr(0), Fr(1))
+    for i in range(ctx.budget(6, 18)):
+        lib = ["ufoLib2", "defcon"][i % 2]
+        order = ["partial-first", "partial-last", "full-only"][(i // 2) % 3]
+
+        def full(k):
+            d = 20 * k
+            return {"glyphs": [{"name": "B", "unicodes": [0x42], "width": Fr(500 + d), "contours": sq(0, 0, 100 + d), "components": [], "anchors": []},
+                               {"name": "D", "unicodes": [0x44], "width": Fr(500 + d), "contours": [], "anchors": [],
+                                "components": [("B", one + (Fr(15 + d), Fr(20)))]},
+                               {"name": "G", "unicodes": [0x47], "width": Fr(600 + d), "contours": [], "anchors": [],
+                                "components": [("D", one + (Fr(100), Fr(200 + d))), ("B", one + (Fr(300), Fr(0)))]}],
+                    "glyphOrder": ["B", "D", "G"]}
+        partial = {"glyphs": [{"name": "B", "unicodes": [0x42], "width": Fr(510), "contours": sq(0, 0, 110), "components": [], "anchors": []}],
+                   "glyphOrder": ["B"]}
+        descs = {"partial-first": [partial, full(0), full(1)], "partial-last": [full(0), full(1), partial], "full-only": [full(0), full(1)]}[order]
+        case = {"function": "compileInterpolatableTTFs", "options": {"flattenComponents": True}, "lib": lib, "sources": order,
+                "fonts": [jsonable(d) for d in descs]}
+        ctx.count(); ctx.klass("interpolatable list + flatten: " + order); ctx.nontriv(("ifl", i, ctx.scale))
+        try:
+            outs = list(ufo2ft.compileInterpolatableTTFs([build_font(d, lib) for d in descs], flattenComponents=True, useProductionNames=False))
+            alone = [ufo2ft.compileTTF(build_font(d, lib), useProductionNames=False) for d in descs]
+        except Exception as e:
+            ctx.spec_failure(case, "compile raised %s: %s\n%s" % (type(e).__name__, e, traceback.format_exc()[-1000:]))
+            continue
+        for k, (tt, ref) in enumerate(zip(outs, alone)):
+            b = io.BytesIO(); tt.save(b); tt = TTFont(io.BytesIO(b.getvalue()))
+            b = io.BytesIO(); ref.save(b); ref = TTFont(io.BytesIO(b.getvalue()))
+            order_k = tt.getGlyphOrder()
+            deep = [n for n in order_k if tt["glyf"][n].isComposite() and
+                    any(c.glyphName not in order_k or tt["glyf"][c.glyphName].isComposite() for c in tt["glyf"][n].components)]
+            if deep:
+                ctx.spec_failure(dict(case, source_index=k, glyphs=deep), "flattening requested, but in font %d %r still nest components (or dangle)" % (k, deep))
+                continue
+            if any(tt["glyf"][n].isComposite() for n in order_k) and tt["maxp"].maxComponentDepth != 1:
+                ctx.spec_failure(dict(case, source_index=k), "maxp.maxComponentDepth of font %d is %d after flattening" % (k, tt["maxp"].maxComponentDepth))
+            for n in ref.getGlyphOrder():
+                if n in order_k and not same_rendering(flat_contours(ref, n), flat_contours(tt, n), tol=1.5):
+                    ctx.spec_failure(dict(case, source_index=k, glyph=n), "glyph %r of font %d renders differently from the same source compiled alone" % (n, k))
+                    break
+
+
 def cubic_distance_test(ctx, rng):
     skip_flatten_test(ctx, rng)
     unrounded_distance_test(ctx, rng)
@@ -568,6 +619,7 @@ def notdef_section(ctx, rng):
 
 
 def explore(ctx):
+    interp_flatten_section(ctx)
     from harness.pipeline_check import pipeline_section
     pipeline_section(ctx, "ttf")
     notdef_section(ctx, ctx.subrng("notdef"))
